@@ -39,13 +39,23 @@ SPEC = dict(
              'is_basic_seed, mnemonic_to_entropy, mnemonic_is_valid, mnemonic_to_seed / _private_key / _wallet_key - and Lean proves for ALL inputs and '
              'ALL instantiations of the primitives that each regenerated function equals its hand model (Proofs/SrcAdnl.lean); c20_src_symmetric, '
              'c20_src_channel_keys, c20_src_cipher, c20_src_sign, c20_src_mnemonic restate the property theorems over the regenerated functions. '
-             'Still hand model + recorded-stream correspondence: get_secure_random_number (float arithmetic, while True) and the loops of mnemonic_new.',
+             'The two `while True` functions are regenerated AS A WHOLE too (translator pyrand.py: the os.urandom answers are an arbitrary stream '
+             'parameter, each loop is a fuelled recursion, Python float arithmetic is a declared interface Py.FloatIf): c20_src_mnemonic_new - every '
+             'list the regenerated mnemonic_new() returns (24 words, any stream, any float interface, any budget) gets True from the regenerated '
+             'mnemonic_is_valid, has 24 list words, and the derivations do not raise on it; c20_src_mnemonic_fuel - the result does not depend on the '
+             'budget once it is returned; c20_src_random_range - a value returned by the regenerated get_secure_random_number(min, max) lies in '
+             '[min, max) for all ints, every stream and every float interface with int(math.pow(2, b) - 1) >= 0 (only the integer rejection test and '
+             '`&` with a non-negative mask are used; uniformity is not claimed - math.ceil(math.log2(2**49 + 1)) is 49 in CPython); '
+             'c20_src_client_ids - Crypto.get_key_id / get_aes_key_id. Still pass-throughs, tested only: private_key_to_public_key, get_random, '
+             'generate_ed25519_private_key.',
         level_note='Trusted: Lean kernel (propext, Classical.choice, Quot.sound); the translator harness/translate/pyprims.py (+ pyobj / pybytes / '
                    'pyarith) with the declared interface of adnlsrc.py - which library call is which primitive of Prims, a key object = the bytes it '
                    'encodes to, a cipher object = (key, counter), AES.new raises unless key 16/24/32 and counter 16 bytes, `<` on bytes = Py.bytesLt - '
                    'validated on every change by running the source under CPython with computable toy primitives against Lean evaluation of the '
-                   'regenerated definitions (254 boundary cases) and against the real nacl / pycryptodomex objects; Model/Adnl.lean only for '
-                   'get_secure_random_number / mnemonic_new (sampled correspondence on recorded os.urandom streams); the stated laws of the primitives '
+                   'regenerated definitions (469 boundary cases) and against the real nacl / pycryptodomex objects; the float interface Py.FloatIf '
+                   'of PyRand.lean (its exact reading Py.intFloat is what validation compares with CPython: ranges up to 2^47, 215 stream cases) and '
+                   'Py.intAnd / Py.urandom? / Py.ceilDivI; Model/Adnl.lean for get_secure_random_number / mnemonic_new only as the reference of the search '
+                   'hook and of the sampled correspondence on recorded os.urandom streams; the stated laws of the primitives '
                    '(tested on every case, not proved); PyNaCl/libsodium, pycryptodomex, x25519, hashlib, hmac; the Python harness. Sampled only: all '
                    'rejection cases of signatures, validity of real generated mnemonics (10 quick / 50 thorough), float arithmetic inside '
                    'get_secure_random_number.',
@@ -54,14 +64,15 @@ SPEC = dict(
     ),
     translators=[('ciphers.py + signature.py + keys.py glue->Generated/AdnlSrc.lean', adnlsrc.regenerate),
                  ('keys.py generator decision lines->Generated/MnemonicNew.lean', arith_adnl.regenerator('MnemonicNew'))],
-    lean_targets=['TonVerif.Proofs.SrcAdnl'],
+    lean_targets=['TonVerif.Proofs.SrcAdnl', 'TonVerif.Proofs.SrcAdnlLoop'],
     design_ref='DESIGN.md §6 C20',
     rule='channel case = (seed a, seed b, id variant: natural/swapped/equal/prefix/empty, plaintext length 0..4096 incl. block boundaries), both directions; '
          'self channel a=b; cipher-guard case = (key length, data length) around 16/20/32; sign case = (seed, message, one alteration of message/key/signature); '
          'mnemonic case = one mnemonic_new() output (validated, derived twice, compared with hashlib/libsodium) or one recorded os.urandom stream; '
          'distinct = distinct inputs; non-trivial = plaintext/message non-empty or structural case',
     trusted_base=['Generated/AdnlSrc.lean is regenerated from ciphers.py / signature.py / keys.py by pyprims.py under the declared interface of adnlsrc.py '
-                  '(validated against CPython with toy primitives); Model/Adnl.lean mirrors get_secure_random_number / mnemonic_new by hand',
+                  '(validated against CPython with toy primitives); get_secure_random_number / mnemonic_new by pyrand.py with the random stream and the float '
+                  'arithmetic as parameters (Py.FloatIf: declared interface); Model/Adnl.lean mirrors them by hand for the sampled correspondence',
                   'ChannelLaws, SignLaw (Proofs/Adnl.lean) are HYPOTHESES about the primitives; tested, not proved',
                   'libsodium (PyNaCl), pycryptodomex AES-CTR, x25519, hashlib, hmac'],
     assumptions=['X25519 is commutative; Ed25519->Curve25519 conversion commutes with taking the public key; AES-CTR is a length-preserving involution',
@@ -665,6 +676,7 @@ def src_search(ctx):
     rng = ctx.rng
     pts = adnlsrc.diff_points(ctx)
     seen = set()
+    loop_diff = set()
     for case, names in pts:
         kind = case[0]
         if kind == 'chan':
@@ -704,9 +716,20 @@ def src_search(ctx):
                         if n == 24 and want_basic:
                             check_generated(ctx, ws)
                         break
+        elif kind == 'rn':
+            # the regenerated get_secure_random_number differs from the hand model on this (range, recorded stream): the same range with the
+            # same first answer on the real function (range contract + model correspondence), then the whole family once
+            lo, hi, stream = case[1], case[2], case[3]
+            key = ('rn', lo, hi)
+            if key not in seen and len([k for k in seen if k[0] == 'rn']) < 24:
+                seen.add(key)
+                check_random_number(ctx, lo, hi, rng.randbytes(8), first=(stream[0] if stream and stream[0] else None))
+            loop_diff.add('rn')
+        elif kind == 'mnew':
+            loop_diff.add('mn')
         if len(ctx.failures) >= 8:
             break
-    lines = arith_adnl.search_points(ctx, ['MnemonicNew'])
+    lines = list(arith_adnl.search_points(ctx, ['MnemonicNew'])) + sorted(loop_diff)
     if any(k.startswith('rn') for k in lines):
         random_cases(ctx)
     if any(k.startswith('mn') for k in lines) and not ctx.failures:
